@@ -263,6 +263,7 @@ def run(ctx):
         units = [u for us in ubt.values() for u in us]
         spell = derive_spellings(units, subs)
         n_entries = 0
+        per_entry, per_entry_exc = {}, {}
         ctx.rule = (
             "legacy spellings derived from the %d substitutions for all %d table units (every non-empty subset of token occurrences x every legacy form, not themselves table symbols): %d spellings; "
             "each x ~55 API entry forms + 7 category-registration forms, legacy vs current spelling, canonical outcomes identical; all current symbols and all category default/valid units unchanged by "
@@ -320,8 +321,11 @@ def run(ctx):
                                       replay={"legacy": leg, "current": cur})  # fmt: skip
                     elif oc[0] == "ok":
                         ctx.count("entry pairs agreeing on a value")
+                        per_entry[name] = per_entry.get(name, 0) + 1
                     else:
                         ctx.count("entry pairs agreeing on an exception")
+                        per_entry.setdefault(name, 0)
+                        per_entry_exc[name] = oc[1]
             for name, ol, oc in registration(ctx, qt, leg, cur, us):
                 ctx.ev()
                 ctx.nt((leg, name))
@@ -331,6 +335,11 @@ def run(ctx):
                     ctx.count("registration pairs agreeing on a value")
                 else:
                     ctx.count("registration pairs agreeing on an exception")
+        # an entry form that never once produced a value decides nothing (both spellings failing alike is also what
+        # a mistake in the form itself looks like): named in the evidence, and the run is inconclusive
+        dead = sorted(n for n, k in per_entry.items() if k == 0)
+        ctx.notes["entry_forms"] = {"with_a_value": sum(1 for k in per_entry.values() if k), "never_a_value": {n: per_entry_exc.get(n) for n in dead}}
+        ctx.inconclusive_if(bool(dead) and ctx.nshards == 1, "entry forms that never produced a value: %s" % dead[:5])
         if ctx.shard == 0:
             second_database(ctx, subs)
             ctx.sample({"spellings": sorted(spell.items())[:12]})
